@@ -135,7 +135,9 @@ def loop (fuel : Nat) (isParen : Bool) (s : Stk) (needOp atStart : Bool) (ts : L
     | [] => finish isParen s needOp [] true          -- EOF
     | .eol :: rest => finish isParen s needOp (.eol :: rest) true
     | .lparen :: rest =>
-        if needOp then finish isParen s needOp (.lparen :: rest) false   -- the x(r12) case
+        if needOp then
+          (if isParen then .err                                   -- no instruction syntax inside parentheses
+           else finish isParen s needOp (.lparen :: rest) false)  -- the x(r12) case
         else
           match run fuel true rest with
           | .ok (v, rest') =>
